@@ -29,7 +29,7 @@ CLAIMED = {
             "; coverage of the leftover heap; dominance of every builder return by its completing loop; copy-completeness of the path simulator (each slot from the same slot of the source); guard analysis of constant subscripts on the caller's explicit path; positive-floor analysis of logarithm arguments fed by a zero-initialised counter; typestate of the set of nodes still to divide incl. its initial state; sibling progress-escape of partition-driven loops; CFG must-pass-through of a keyed store between an empty tally and the pick; sign-domain analysis of logarithm arguments in the greedy score; memoised factories of result-carrying optimizers (shared with C16)"),
     "C06": ("4 C06", "write-discipline of the sliced-index table (sorted rebuild only, SliceInfo field order) and pairing "
             "of sliced_inputs updates, chunk-key/slice-number agreement, exponent-aware combination sites"
-            "; partial evaluation of every enumeration of slice numbers; recurrence of the strides and digit/remainder order of the mixed-radix decoding; storage ownership of yielded chunks; may-alias analysis of in-place writes in the adder and the gatherer (parameters, unpackings, elements, iteration)"),
+            "; partial evaluation of every enumeration of slice numbers; recurrence of the strides and digit/remainder order of the mixed-radix decoding; storage ownership of yielded chunks; may-alias analysis of in-place writes in the adder and the gatherer (parameters, unpackings, elements, iteration); evaluation of the slice-number decoding over every bounded table (bijection onto the value combinations, DESIGN E9)"),
     "C07": ("4 C07", "CFG guard dominance of the forbidden-index test, structural form of the target filter, sibling "
             "agreement of the three target encodings"
             "; symbolic evaluation of the cost model's arithmetic (initial totals, per-index reductions, removal deltas, stored entry, figures) against the tree's definitions; copy completeness of the model; decision table of the allow_outer modes; flag/target agreement of every target test; ownership (who-may-write) of the cost model's slots over the whole package, with a built-in positive example"),
